@@ -1,4 +1,4 @@
-"""C15 - console: memory-safety and protocol clauses (tokenisation semantics are NOT decided).
+"""C15 - console: memory-safety and protocol clauses, and the tokeniser as a finite transducer.
 
  K1 line cursor stays inside the line buffer: every store through bufp is guarded by bufp < buf + K with
     K <= SCRATCH_SIZE-1, bufp only moves by +1 after such a store, by -1 above buf, or is reset to buf
@@ -9,6 +9,9 @@
  K5 command table: the full test guards every store; names are tested for NULL before strcmp; lookup is an exact strcmp == 0
  K6 dispatch order: tokenise -> find -> spawn the command -> prompt reset (which clears the whole scratch area)
  K7 delivery routes: putchar / process / eval feed the ring before waking or running the console
+ K8 tokeniser: the loop body, evaluated over character classes closed under the code's own tests, walks in lock-step with
+    the reference transducer on every line whose tokenisation the property determines (exhaustive over reachable
+    product states, hence over all such lines of any length)
 Both CONFIG_NO_FIBRE settings are analysed.
 """
 from .. import build, flow, paths
@@ -455,27 +458,368 @@ def check_k6_k7(chk, m, cfg):
            "console_eval only feeds the ring and wakes the console fibre (other calls: %s)" % sorted(bad), fe.loc, fe.name)
 
 
+SPACES = (32, 9, 10, 11, 12, 13)
+QUOTES = (39, 34)
+ISSPACE_BIT = 8192      # glibc _ISspace in the __ctype_b_loc() table
+
+
+class _Dont(Exception):
+    pass
+
+
+def spec_step(st, c, nargv):
+    """Reference tokeniser, one character.  st = (mode, q, argc); returns (output, new state) or None where the property
+    does not determine the behaviour (that branch is not explored).
+    modes: W in an unquoted word, G in a gap, O just after an opening quote, Q inside a quoted argument, C just after a
+    closing quote."""
+    mode, q, argc = st
+    sp, qu = c in SPACES, c in QUOTES
+
+    def tok(next_mode):
+        return ("TOK", (next_mode, q, argc + 1))
+    if mode == "W":
+        if sp:
+            return ("NUL", ("G", 0, argc))
+        if qu:
+            return None                     # quote character inside an unquoted word
+        return ("NONE", st)
+    if mode == "G":
+        if sp:
+            return ("NUL", st)
+        if qu:
+            return ("NUL", ("O", c, argc))
+        return tok("W")
+    if mode == "O":
+        if qu:
+            return None                     # empty quoted argument / other quote directly after the opening quote
+        return tok("Q")
+    if mode == "Q":
+        if c == q:
+            return ("NUL", ("C", 0, argc))
+        return ("NONE", st)                 # white space and the other quote character are literal inside quotes
+    if mode == "C":
+        if sp:
+            return ("NUL", ("G", 0, argc))
+        return None                         # text glued to a closing quote
+    raise AssertionError(mode)
+
+
+def check_k8(chk, m, cfg, L):
+    """Tokeniser as a finite transducer: the loop body of do_tokenize is evaluated over character classes (one
+    representative per class; the classes are closed under every test the code applies to a character) and walked in
+    lock-step with the reference transducer from every reachable pair of states."""
+    fn = m.fn("do_tokenize")
+    ca = carg(fn)
+    buf_off = L["scratch.buf"][0]
+    argc_ptr = paths.mkptr(("arg", ca), L["argc"][0])
+    argv_off, argv_sz = L["argv"]
+    N = argv_sz // m.ptr_size
+    segs = [(s0, p) for s0, p in paths.enumerate_segments(fn, m, call_effects={"strlen": [], "__ctype_b_loc": [], "isspace": []})
+            if p.end != "unreachable"]
+    entry = [p for s0, p in segs if s0 == fn.entry.name]
+    if len(entry) != 1 or not entry[0].end.startswith("cut:"):
+        chk.unknown("K8.tokeniser", "do_tokenize[%s]" % cfg, "the tokeniser does not start with one straight-line prologue and a loop", fn.loc)
+        return
+    H = entry[0].end[4:]
+    body = [p for s0, p in segs if s0 == H]
+    loc = fn.loc
+
+    def unknown(why, l=None):
+        chk.unknown("K8.tokeniser", "do_tokenize[%s]" % cfg, why, l or loc)
+
+    # --- classify the atoms used by the loop body --------------------------------------------------------------
+    def char_atom(e):
+        """'cur' / 'prev' for loads of buf[i] / buf[i-1]; (None) otherwise; raises _Dont for other subscripts"""
+        if e[0] != "ld":
+            return None
+        root, off, var = ptr_parts(e[1])
+        if root != ("arg", ca) or off != buf_off or len(var) != 1 or var[0][1] != 1:
+            return None
+        x = strip_casts(var[0][0])
+        if x[0] == "sym":
+            return ("cur", x[1])
+        if x[0] == "b" and x[1] == "sub" and strip_casts(x[3])[0] == "sym" and x[4][0] == "c" and x[4][2] == 1:
+            return ("prev", strip_casts(x[3])[1])
+        raise _Dont("the tokeniser reads the line at subscript %s (only [i] and [i-1] are modelled)" % fmt(x))
+
+    def is_ctype_entry(e):
+        if e[0] != "ld":
+            return None
+        root, off, var = ptr_parts(e[1])
+        r = strip_casts(root)
+        if r[0] == "ld" and strip_casts(r[1])[0] == "call" and strip_casts(r[1])[1] == "__ctype_b_loc" and off == 0 and len(var) == 1 \
+                and var[0][1] == 2:
+            return var[0][0]
+        return None
+    ivars = set()
+    consts = set()
+    try:
+        for p in body:
+            for c, taken, inst in p.conds:
+                for x in paths.subexprs(c):
+                    a = char_atom(x)
+                    if a:
+                        ivars.add(a[1])
+                    if getattr(inst, "op", None) == "switch":
+                        consts.update(cv & 0xff for cv, b in inst["cases"])
+                    if x[0] == "icmp":
+                        for u, v in ((x[2], x[3]), (x[3], x[2])):
+                            if v[0] == "c" and any(char_atom(y) for y in paths.subexprs(u) if y[0] == "ld"):
+                                consts.add(v[2] & 0xff)
+                    if is_ctype_entry(x) is not None:
+                        pass
+                # the table entry may only be tested for the space bit
+                for x in paths.subexprs(c):
+                    if x[0] == "b" and x[1] != "and" and any(is_ctype_entry(strip_casts(y)) is not None for y in (x[3], x[4])):
+                        raise _Dont("character-class table entry used with operator %s" % x[1])
+                    if x[0] == "b" and x[1] == "and":
+                        for u, v in ((x[3], x[4]), (x[4], x[3])):
+                            if is_ctype_entry(strip_casts(u)) is not None and not (v[0] == "c" and v[2] == ISSPACE_BIT):
+                                raise _Dont("character-class test other than isspace (mask %s)" % fmt(v))
+    except _Dont as d:
+        unknown(str(d))
+        return
+    for p in body:
+        for c, taken, inst in p.conds:
+            for x in paths.subexprs(c):
+                if x[0] == "call" and isinstance(x[1], str) and m.has_fn(x[1]):
+                    for i in m.functions[x[1]].real_insts():
+                        if i.op in ("icmp", "switch"):
+                            for o in i.ops:
+                                if o.k == "int" and 0 < o.uval < 256:
+                                    consts.add(o.uval)
+    if len(ivars) != 1:
+        unknown("no single index variable walks the line (found %s)" % sorted(ivars))
+        return
+    ivar = list(ivars)[0]
+    statevars = sorted(k for k in entry[0].carried if k != ivar)
+    # character classes: every constant a character is compared with, one more white-space character, one other character
+    reps = sorted(c for c in consts if c != 0)
+    for extra in [x for x in SPACES if x not in consts][:1] + [x for x in QUOTES if x not in consts] + [x for x in (97, 98, 120) if x not in consts][:1]:
+        reps.append(extra)
+    generic_reps = set(r for r in reps if r not in consts)
+    cmp_state_vars = set()
+    for p in body:
+        for c, taken, inst in p.conds:
+            for x in paths.subexprs(c):
+                if x[0] == "icmp":
+                    for u, v in ((x[2], x[3]), (x[3], x[2])):
+                        su, sv = strip_casts(u), strip_casts(v)
+                        if su[0] == "sym" and su[1] in statevars and sv[0] == "ld":
+                            cmp_state_vars.add(su[1])
+    lensym = None
+    for c, taken, inst in body[0].conds[:1]:
+        cc = strip_casts(c)
+        if cc[0] == "icmp" and strip_casts(cc[2]) == ("sym", ivar) and strip_casts(cc[3])[0] in ("sym", "call"):
+            lensym = strip_casts(cc[3])
+    if lensym is None:
+        unknown("loop condition is not 'i < strlen(line)'")
+        return
+
+    pure = paths.pure_functions(m)
+    pure_paths = {}
+
+    def eval_pure(name, vals):
+        """value of a call to a module-local function without memory effects, on concrete arguments"""
+        if name not in pure_paths:
+            pure_paths[name] = paths.enumerate_paths(m.functions[name], m)
+        f = m.functions[name]
+        env = {("arg", k): v for k, v in enumerate(vals)}
+        hits = []
+        for q in pure_paths[name]:
+            if all(paths.cond_holds(cd, env) for cd in q.conds):
+                hits.append(q)
+        if len(hits) != 1 or hits[0].ret is None:
+            raise _Dont("helper %s not evaluable on %s" % (name, vals))
+        return paths.eval_concrete(hits[0].ret, env)
+
+    def make_env(p, state, c, prev, argc):
+        base = {("sym", ivar): 7, lensym: 1000}
+        for k, v in zip(statevars, state):
+            base[("sym", k)] = v
+
+        class Env(dict):
+            def __contains__(self, x):
+                if dict.__contains__(self, x):
+                    return True
+                v = None
+                a = char_atom(x)
+                if a:
+                    v = c if a[0] == "cur" else prev
+                elif x[0] == "ld" and x[1] == argc_ptr:
+                    v = argc
+                elif is_ctype_entry(x) is not None:
+                    idx = paths.eval_concrete(is_ctype_entry(x), self) & 0xff
+                    v = ISSPACE_BIT if idx in SPACES else 0
+                elif x[0] == "call" and x[1] == "isspace":
+                    v = 1 if (paths.eval_concrete(x[2][0], self) & 0xff) in SPACES else 0
+                elif x[0] == "call" and isinstance(x[1], str) and m.has_fn(x[1]) and x[1] in pure:
+                    v = eval_pure(x[1], [paths.eval_concrete(a, self) for a in x[2]])
+                if v is None:
+                    return False
+                self[x] = v
+                return True
+        return Env(base)
+
+    def impl_step(state, c, prev, argc):
+        """-> (output, new state, new prev, new argc, continues)"""
+        hits = []
+        for p in body:
+            if not p.conds or strip_casts(p.conds[0][0])[0] != "icmp":
+                raise _Dont("segment without loop condition")
+            lc = strip_casts(p.conds[0][0])
+            if not (lc[0] == "icmp" and lc[1] in ("ult", "slt") and strip_casts(lc[2]) == ("sym", ivar) and strip_casts(lc[3]) == lensym):
+                raise _Dont("loop-body segment does not begin with the loop condition i < len")
+            if not p.conds[0][1]:
+                continue                    # i >= len: the line is finished
+            try:
+                env = make_env(p, state, c, prev, argc)
+                ok = all(paths.cond_holds(cd, env) for cd in p.conds[1:])
+            except paths.NoValue as nv:
+                raise _Dont("condition not evaluable over character classes: %s" % fmt(nv.args[0])[:80])
+            if ok:
+                hits.append((p, env))
+        if len(hits) != 1:
+            raise _Dont("%d loop-body segments match state %s, character %r" % (len(hits), state, chr(c)))
+        p, env = hits[0]
+        out, nprev, nargc = "NONE", c, argc
+        for e in p.events:
+            if e.kind != "store":
+                continue
+            root, off, var = ptr_parts(e.ptr)
+            if e.ptr == argc_ptr:
+                nargc = paths.eval_concrete(e.val, env) & 0xffffffff
+                continue
+            if root == ("arg", ca) and off == buf_off and len(var) == 1 and strip_casts(var[0][0]) == ("sym", ivar):
+                v = paths.eval_concrete(e.val, env) & 0xff
+                if v != 0:
+                    raise _Dont("the tokeniser rewrites a character with %d" % v)
+                out, nprev = "NUL", 0
+                continue
+            if root == ("arg", ca) and argv_off <= off < argv_off + argv_sz and len(var) <= 1:
+                slot = (off - argv_off) // m.ptr_size + (paths.eval_concrete(var[0][0], env) if var else 0)
+                tgt = ptr_parts(e.val)
+                if not (tgt[0] == ("arg", ca) and tgt[1] == buf_off and len(tgt[2]) == 1 and strip_casts(tgt[2][0][0]) == ("sym", ivar)):
+                    return ("TOK?", "argv[%d] = %s" % (slot, fmt(e.val))), None, None, None, False
+                if slot != argc:
+                    return ("TOK?", "argv[%d] written while argc == %d" % (slot, argc)), None, None, None, False
+                out = "TOK"
+                continue
+            raise _Dont("store to %s in the tokeniser loop is not modelled" % fmt(e.ptr))
+        if out == "TOK" and nargc != argc + 1:
+            return ("TOK?", "argc goes from %d to %d at a token start" % (argc, nargc)), None, None, None, False
+        if out != "TOK" and nargc != argc:
+            return ("TOK?", "argc changes without a token start"), None, None, None, False
+        cont = p.end == "cut:" + H
+        nstate = tuple(paths.eval_concrete(p.carried[k], env) & 0xff for k in statevars) if cont else state
+        return out, nstate, nprev, nargc, cont
+
+    # --- prologue ---------------------------------------------------------------------------------------------
+    e0 = entry[0]
+    try:
+        init_state = tuple(paths.eval_concrete(e0.carried[k], {}) & 0xff for k in statevars)
+        argc0 = [paths.eval_concrete(e.val, {}) for e in e0.events if e.kind == "store" and e.ptr == argc_ptr][-1]
+    except (paths.NoValue, IndexError):
+        unknown("prologue does not set argc and the loop state to constants")
+        return
+    argv0 = [e for e in e0.events if e.kind == "store" and e.ptr == paths.mkptr(("arg", ca), argv_off)]
+    chk.ob("K8.argv0", "do_tokenize[%s]" % cfg, bool(argv0) and argv0[-1].val == paths.mkptr(("arg", ca), buf_off) and argc0 == 1,
+           "argv[0] is the start of the line and argc starts at 1", e0.events[0].inst.loc if e0.events else loc, fn.name)
+    # --- product walk -----------------------------------------------------------------------------------------
+    start = ((init_state, 97, argc0), ("W", 0, 1))
+    seen = {start: ""}
+    work = [start]
+    steps = 0
+    bad = None
+    try:
+        while work and bad is None:
+            cur = work.pop(0)
+            (ist, prev, argc), sst = cur
+            for c in reps:
+                sp = spec_step(sst, c, N)
+                if sp is None:
+                    continue
+                steps += 1
+                out, nstate, nprev, nargc, cont = impl_step(ist, c, prev, argc)
+                line = "a" + seen[cur] + chr(c)
+                if isinstance(out, tuple):
+                    bad = (line, out[1], sp[0])
+                    break
+                if out != sp[0]:
+                    bad = (line, {"NUL": "ends a token here (stores NUL)", "TOK": "starts an argument here", "NONE": "keeps the character as part of the current token"}[out],
+                           {"NUL": "the reference ends a token / drops the character", "TOK": "the reference starts an argument", "NONE": "the reference keeps the character as literal text"}[sp[0]])
+                    break
+                smode, sq, sargc = sp[1]
+                if sp[0] == "TOK" and sargc >= N:
+                    continue                # argv is full: what happens to the rest of the line is not determined (K3 bounds it)
+                if not cont:
+                    bad = (line, "stops after this character with argc == %d" % nargc,
+                           "the reference goes on: argv has %d entries and the rest of the line still holds arguments" % N)
+                    break
+                generic = [k for k, v in zip(statevars, nstate) if v in generic_reps and k in cmp_state_vars]
+                if generic:
+                    raise _Dont("state variable %s holds an arbitrary character and is compared with characters: the class "
+                                "abstraction is not exact" % generic[0])
+                nxt = ((nstate, nprev, nargc), sp[1])
+                if nxt not in seen:
+                    seen[nxt] = seen[cur] + chr(c)
+                    work.append(nxt)
+                    if len(seen) > 5000:
+                        raise _Dont("state space of the tokeniser exceeds 5000 product states")
+    except _Dont as d:
+        unknown(str(d))
+        return
+    chk.expect("K8", "product states of tokeniser and reference [%s]" % cfg, len(seen), 8)
+    if bad:
+        chk.ob("K8.tokeniser", "do_tokenize[%s]" % cfg, False,
+               "on the line %r the tokeniser %s at its last character; %s" % bad, loc, fn.name)
+    else:
+        chk.ob("K8.tokeniser", "do_tokenize[%s]" % cfg, True,
+               "%d product states, %d steps over character classes %s: every step agrees with the reference transducer"
+               % (len(seen), steps, [chr(c) for c in reps]), loc, fn.name)
+    # --- padding loop -----------------------------------------------------------------------------------------
+    others = sorted(h for h in fn.loops_headers() if h != H)
+    for h in others:
+        for s0, p in segs:
+            if s0 == h and p.end == "cut:" + h:
+                for e in p.events:
+                    if e.kind == "store" and ptr_parts(e.ptr)[0] == ("arg", ca) and argv_off <= ptr_parts(e.ptr)[1] < argv_off + argv_sz:
+                        tgt = ptr_parts(e.val)
+                        ok = tgt[0] == ("arg", ca) and tgt[1] == buf_off and len(tgt[2]) == 1 and strip_casts(tgt[2][0][0]) == lensym
+                        chk.ob("K8.padding", "do_tokenize[%s]" % cfg, ok, "unused argv entries point at the line's terminating NUL"
+                               if ok else "unused argv entries are set to %s, not to the empty string at the end of the line" % fmt(e.val),
+                               e.inst.loc, fn.name)
+
+
 def run(chk):
     chk.explanation = (
         "Static memory-safety and protocol analysis of console.c over its IR in both CONFIG_NO_FIBRE settings: loop-free "
         "segments of console_run / do_tokenize / console_register (cut at loop heads, protothread resume points included) "
         "are checked for guarded cursor stores, cursor updates, the NUL-suffix invariant the tokeniser's strlen relies on, "
         "an inductive argc invariant with in-bounds argv stores (linear entailment), constant subscripts inside their "
-        "declared arrays, command-table discipline, dispatch order and delivery routes. What the tokeniser yields for "
-        "every character stream (quoting semantics) is NOT decided.")
+        "declared arrays, command-table discipline, dispatch order and delivery routes. The tokeniser's loop body is "
+        "abstracted to a finite transducer over character classes and compared, over all reachable product states, with "
+        "the reference transducer (K8); lines the property leaves open (quote inside a word, empty quotes, text glued to a "
+        "closing quote, leading white space) are not compared.")
     chk.rule("K1", "every store through bufp is guarded by bufp < buf+K with K+offset <= SCRATCH_SIZE-1; bufp changes only by +1 after such a store, -1 under bufp > buf, or reset to buf")
     chk.rule("K2", "when bufp moves back the vacated byte is zeroed, or a NUL is stored through bufp before every call of the tokeniser")
     chk.rule("K3", "invariant 1 <= argc <= lengthof(argv)-1 at the tokeniser's loop head; every store to argv[] has an index in [0, lengthof(argv)-1]")
     chk.rule("K4", "every constant array subscript (GEP step) in console.c is inside the declared array")
     chk.rule("K5", "console_register: full test guards all table stores; NULL test precedes every strcmp on a table name; find_command matches with strcmp == 0")
     chk.rule("K6", "execute path: do_tokenize -> find_command -> cmd->fn -> do_prompt; do_prompt clears the scratch line and resets bufp")
+    chk.rule("K8", "do_tokenize, evaluated per character class, agrees step by step with the reference transducer (split at unquoted white space; "
+             "a quoted argument opens after a gap and closes at the SAME quote character; at most lengthof(argv) entries) on every "
+             "line whose tokenisation the property determines; argv[0] is the line start; unused entries are empty strings")
     chk.rule("K7", "console_putchar / console_process put into the ring before waking / running the console; console_eval only feeds the ring and wakes the fibre")
     chk.assumptions += [
         "LP64 data model only (no 32-bit sysroot in this image): on ILP32 the scratch union is 80 bytes, not 160",
         "the command table keeps its NULL-named sentinel (data invariant; the shift loop's indices are not decided)",
-        "tokenisation semantics (quoting, splitting) are NOT decided",
+        "K8 models isspace() as the C-locale set {space,\\t,\\n,\\v,\\f,\\r} (glibc table bit _ISspace or a call of isspace)",
+        "K8 leaves undetermined lines uncompared: a quote character inside an unquoted word, an empty quoted argument, text "
+        "glued to a closing quote, a line starting with white space or a quote, and everything after argv is full",
     ]
-    chk.not_decided += ["what the tokeniser yields for every character stream"]
+    chk.not_decided += ["which line results from every character stream (editing is decided only as K1/K2 clauses)",
+                        "tokenisation of the lines the property leaves open (see assumptions)"]
     for cfg in ("default", "nofibre"):
         m = build.load_unit(UNIT, cfg)
         chk.note_unit(m)
@@ -485,3 +829,4 @@ def run(chk):
         check_k4(chk, [m], cfg)
         check_k5(chk, m, cfg)
         check_k6_k7(chk, m, cfg)
+        check_k8(chk, m, cfg, L)
